@@ -311,6 +311,10 @@ func VerifyEthereumSignature(pubKey cryptotypes.PubKey, signerData authsigning.S
 				if err != nil {
 					return err
 				}
+				// an ethereum transaction authenticates its own sender only, never another signer of the transaction
+				if signerData.Address != sender.String() {
+					return fmt.Errorf("ethereum transaction of %s cannot authenticate signer %s", sender.String(), signerData.Address)
+				}
 				if from != common.BytesToAddress(sender) {
 					return fmt.Errorf("mismatching ethereum transaction signer and sender: %s != %s", from.String(), common.BytesToAddress(sender).String())
 				}
